@@ -258,3 +258,22 @@ func (m *cmpModel) primaryKeyViolations(key string) (bad []string, undecided boo
 	}
 	return bad, false
 }
+
+// comparedSlices: the slices a less-function indexes with its two index parameters.
+func comparedSlices(fn *ssa.Function) []ssa.Value {
+	var out []ssa.Value
+	for _, b := range fn.Blocks {
+		for _, in := range b.Instrs {
+			ia, ok := in.(*ssa.IndexAddr)
+			if !ok {
+				continue
+			}
+			for k := 0; k < 2 && k < len(fn.Params); k++ {
+				if ia.Index == ssa.Value(fn.Params[k]) {
+					out = append(out, ia.X)
+				}
+			}
+		}
+	}
+	return out
+}
